@@ -60,23 +60,39 @@ def selections(npart):
     return [s for s in sels if all(i < npart for i in s)]
 
 
-def known_d22(run, rt, tmp):
-    """Known finding D22: Head/Tail are lowered AFTER a multi-file parquet read was fused (FusedIO), so head(n, npartitions=k)
-    counts fused partitions: k = the collection's own npartitions is rejected, and head/tail can return rows beyond the first/last
-    logical partition."""
+def fused_read_heads(run, rt, tmp):
+    """Head / Tail over a multi-file parquet read that tuning fuses (FusedIO): the positions are those of the collection the user
+    sees (defect D22, repaired: regressions/D22_C11.py), for a query that is not pushed into the read."""
     import pandas as pd
     pdf = pd.DataFrame({"a": range(24), "b": [i % 5 for i in range(24)], "c": [float(i % 7) for i in range(24)]})
     pq = os.path.join(tmp, "pq_d22")
     rt.dx.from_pandas(pdf, npartitions=4).to_parquet(pq)
-    d = rt.dx.read_parquet(pq)
-    q = d.a + d.a.sum()
-    run.count(("known", "D22"))
-    r = try_(lambda: q.head(2, npartitions=q.npartitions, compute=False).compute())
-    if r[0] == "raise" and "partitions, head received" in r[1]:
-        run.violation("read_parquet(4 files)['a'] + sum: head(2, npartitions=%d) raises %s" % (q.npartitions, r[1]),
-                      {"kind": "known", "id": "D22"}, finding="D22")
-    elif r[0] == "raise":
-        run.violation("head over fused parquet read raises %s" % r[1], {"kind": "head-fused"})
+    for reader in ("fsspec", "arrow"):
+        d = rt.dx.read_parquet(pq, **({"filesystem": "arrow"} if reader == "arrow" else {}))
+        for qn, q in (("a + a.sum()", d.a + d.a.sum()), ("a + 1", d.a + 1), ("[['a']].cumsum()", d[["a"]].cumsum())):
+            full = try_(lambda: exec_expr(q.expr.lower_completely()))
+            if full[0] == "raise":
+                run.broken_tie("scenario does not compute", {"tag": qn, "err": full[1]})
+                continue
+            full = full[1]
+            for n_rows, k in ((2, q.npartitions), (7, 2), (5, 1), (9, 3)):
+                run.count(("fused-head", reader, qn, n_rows, k))
+                r = try_(lambda: q.head(n_rows, npartitions=k, compute=False).compute())
+                exp = concat_parts(full[:k]).head(n_rows)
+                case = {"kind": "head-fused", "reader": reader, "query": qn, "n": n_rows, "npartitions": k}
+                if r[0] == "raise":
+                    run.violation("read_parquet(4 files, %s) %s: head(%d, npartitions=%d) raises %s" % (reader, qn, n_rows, k, r[1]), case)
+                elif canon(r[1]) != canon(exp):
+                    run.violation("read_parquet(4 files, %s) %s: head(%d, npartitions=%d) returns %s, expected %s" % (reader, qn, n_rows, k, _short(canon(r[1])), _short(canon(exp))), case)
+            for n_rows in (2, 9):
+                run.count(("fused-tail", reader, qn, n_rows))
+                r = try_(lambda: q.tail(n_rows, compute=False).compute())
+                exp = full[-1].tail(n_rows)
+                case = {"kind": "tail-fused", "reader": reader, "query": qn, "n": n_rows}
+                if r[0] == "raise":
+                    run.violation("read_parquet(4 files, %s) %s: tail(%d) raises %s" % (reader, qn, n_rows, r[1]), case)
+                elif canon(r[1]) != canon(exp):
+                    run.violation("read_parquet(4 files, %s) %s: tail(%d) returns %s, expected %s" % (reader, qn, n_rows, _short(canon(r[1])), _short(canon(exp))), case)
 
 
 def run(run):
@@ -144,8 +160,6 @@ def run(run):
                     for k in (1, 2, npart, -1):
                         if quick and k == 2 and n_rows == 7:
                             continue
-                        if sname.startswith("read_parquet") and k not in (-1,):
-                            continue   # head over a fused multi-file read counts fused partitions: known finding D22, replayed in known_d22()
                         nhead += 1
                         run.count(("head", tag, n_rows, k), nontrivial=cname != "identity")
                         kk = npart if k == -1 else k
@@ -156,8 +170,6 @@ def run(run):
                         elif canon(got[1]) != canon(exp):
                             run.violation("%s: head(%d, npartitions=%d) returns %s, first rows of the first %d partitions are %s" % (tag, n_rows, k, _short(canon(got[1])), kk, _short(canon(exp))),
                                           {"kind": "head", "tag": tag, "n": n_rows, "npartitions": k})
-                    if sname.startswith("read_parquet"):
-                        continue   # D22 (fused multi-file read): replayed in known_d22()
                     exp = full[-1].tail(n_rows)
                     got = try_(lambda: coll.tail(n_rows, compute=False).compute())
                     if got[0] == "raise":
@@ -246,7 +258,7 @@ def run(run):
                         run.violation("%s(%d) by %s returns columns %s, expected %s" % (nm, nr, by, list(got[1].columns), list(exp.columns)), {"kind": "sorted-head", "name": nm, "by": by, "n": nr})
                     if keycol(got[1]) != keycol(exp):
                         run.violation("%s(%d) by %s returns keys %s, expected %s" % (nm, nr, by, keycol(got[1]), keycol(exp)), {"kind": "sorted-head", "name": nm, "by": by, "n": nr})
-        known_d22(run, rt, tmp)
+        fused_read_heads(run, rt, tmp)
         run.section("selections", partition_selections=nsel, head_tail_cases=nhead, sources=[s for s, _ in srcs])
         run.sample({"source": "from_array(chunksize=6)", "chain": "d + 1", "selection": [3, 0], "head": {"n": 7, "npartitions": 2}})
     finally:
